@@ -61,7 +61,7 @@ class RemoteServer():
     def install_handlers(self):
         def cleanup(*args):
             for child in self.children:
-                if child.is_alive():
+                if child.pid is not None and child.is_alive(): # (no pid: the child is being spawned this very moment)
                     os.kill(child.pid, signal.SIGTERM)
 
             self.children.clear()
@@ -195,7 +195,7 @@ class RemoteServer():
             for child in itertools.chain(self.children, self.contexts.values()):
                 try:
                     child.terminate(timeout=1, force=True, _release_remote_ctrl=True)
-                    if child.is_alive():
+                    if child.pid is not None and child.is_alive():
                         os.kill(child.pid, signal.SIGTERM)
                 except:
                     logger.exception('Exception occurred while killing a remote child:')
